@@ -491,6 +491,37 @@ func c08(x *mon.Ctx) {
 			}
 		}
 	}
+	// a listed (or pinned) value that is NOT the quote's but agrees with it under a checksum (CRC-64 ISO / ECMA, CRC-32 IEEE /
+	// Castagnoli, XOR of words: the value is the quote's XORed with an element of the checksum's kernel): membership and equality
+	// are decided on the bytes
+	for k := range checksums48 {
+		if !checksums48[k].linear {
+			continue
+		}
+		d := linearKernel(checksums48[k].f, 48)
+		if d == nil {
+			continue
+		}
+		for rep := 0; rep < 2; rep++ {
+			qp := policyQuote(r)
+			q, _ := ref.ParseQuote(qp.Bytes())
+			look := func(v []byte) []byte {
+				o := append([]byte(nil), v...)
+				for i := range o {
+					o[i] ^= d[i]
+				}
+				return o
+			}
+			name := checksums48[k].name
+			add("value-agreeing-under-a-checksum", fmt.Sprintf("any-mr-td/%s/alone#%d", name, rep), qp, ref.Policy{AnyMrTd: [][]byte{look(q.MrTd)}})
+			add("value-agreeing-under-a-checksum", fmt.Sprintf("any-mr-td/%s/behind-zeros#%d", name, rep), qp, ref.Policy{AnyMrTd: [][]byte{make([]byte, 48), look(q.MrTd)}})
+			add("value-agreeing-under-a-checksum", fmt.Sprintf("any-mr-td/%s/next-to-the-real-one#%d", name, rep), qp, ref.Policy{AnyMrTd: [][]byte{look(q.MrTd), q.MrTd}})
+			add("value-agreeing-under-a-checksum", fmt.Sprintf("mr-td/%s#%d", name, rep), qp, ref.Policy{MrTd: look(q.MrTd)})
+			add("value-agreeing-under-a-checksum", fmt.Sprintf("mr-seam/%s#%d", name, rep), qp, ref.Policy{MrSeam: look(q.MrSeam)})
+			add("value-agreeing-under-a-checksum", fmt.Sprintf("mr-owner/%s#%d", name, rep), qp, ref.Policy{MrOwner: look(q.MrOwner)})
+			add("value-agreeing-under-a-checksum", fmt.Sprintf("rtmr2/%s#%d", name, rep), qp, ref.Policy{Rtmrs: [][]byte{nil, nil, look(q.Rtmrs[2]), nil}})
+		}
+	}
 	// a policy that expects a value outside the masks: the quote must equal it AND respect the masks
 	{
 		qp := policyQuote(r)
@@ -1050,6 +1081,7 @@ func c08(x *mon.Ctx) {
 			x.Require("option-switch-on", 0, n, n)
 		}
 	}
+	x.Require("value-agreeing-under-a-checksum", 5, 50, 60)
 	x.Require("td-attributes-bit", 12, 300, 380)
 	x.Require("min-qe-svn", 15, 8, 25)
 	x.Require("min-pce-svn", 15, 8, 25)
